@@ -148,7 +148,9 @@ def run_case(case, res, verbose=False):
     bad = live_vs_parse(root, 'Module')
     if bad:
         # input-side fact for the known-finding selector: the caller asked to keep the new code's own parentheses (pars=True)
+        slot_parent = O.get_path(ptree, path[:-1])
         params = dict(case, pars_true_own_parens=bool(opts.get('pars') is True and form in ('srcpar', 'fstpar')),
+                      slot=f'{slot_parent.__class__.__name__}.{path[-1][0]}',
                       child_kind={'Starred': 'Starred', 'Yield': 'Yield', 'YieldFrom': 'Yield'}.get(cast.__class__.__name__, 'other'))
         res.fail(cid, 'C01:source-does-not-parse' if bad.startswith('source does not parse') else 'C01:live-tree-differs-from-parse',
                  f'{bad}\nparent={psrc!r} slot={O.path_str(path)} child={csrc!r} form={form} opts={opts}', params, case)
